@@ -370,9 +370,32 @@ theorem flip_correct1 {α : Type} (A : Nat → α) (n c i : Nat) (hc : 0 < c) (h
 
 /-! ### scan -/
 
-theorem scanAccepts_iff (s nb : Nat) (hs : 0 < s) (hnb : 0 < nb) :
-    scanAccepts s nb = true ↔ (nb ≤ s ∨ nb % s = 0) := by
-  unfold scanAccepts scanSplitSize
+/-- since 5fff6ae the declared sizes of the per-block totals sum to `nb`: the assertion always holds. -/
+theorem scanAccepts_all (s nb : Nat) : scanAccepts s nb = true := by
+  unfold scanAccepts scanReducedSizes
+  simp [sum_chunksOf]
+
+theorem length_scanReducedSizes (s nb : Nat) (hs : 0 < s) (hnb : 0 < nb) :
+    (scanReducedSizes s nb).length = nblocks nb (scanSplitSize s nb) := by
+  unfold scanReducedSizes
+  exact length_chunksOf _ _ (by unfold scanSplitSize; omega)
+
+/-- the value `_scan_binop` reads (`inc[bi % split_every]` of increment block `bi // split_every`) exists:
+the block is in the grid of the increment array and the local index is inside it (ragged last block included). -/
+theorem scanInc_inBounds (s nb bi : Nat) (hs : 0 < s) (hbi : bi < nb) :
+    bi / s < nblocks nb (scanSplitSize s nb) ∧ bi % s < blockLen nb (scanSplitSize s nb) (bi / s) := by
+  unfold scanSplitSize
+  by_cases hle : nb ≤ s
+  · rw [Nat.min_eq_right hle, Nat.div_eq_of_lt (by omega), Nat.mod_eq_of_lt (by omega)]
+    refine ⟨nblocks_pos (by omega) (by omega), ?_⟩
+    unfold blockLen
+    omega
+  · rw [Nat.min_eq_left (by omega)]
+    exact ⟨div_lt_nblocks hs hbi, mod_lt_blockLen hs hbi⟩
+
+theorem scanAcceptsOld_iff (s nb : Nat) (hs : 0 < s) (hnb : 0 < nb) :
+    scanAcceptsOld s nb = true ↔ (nb ≤ s ∨ nb % s = 0) := by
+  unfold scanAcceptsOld scanSplitSize
   simp only [beq_iff_eq]
   by_cases hle : nb ≤ s
   · rw [Nat.min_eq_right hle]
@@ -672,6 +695,20 @@ theorem stack_correct_partial {α : Type} (arrs : Nat → List Nat → α) (shap
   rw [bcastIndex_self _ _ (by rw [length_insertAt _ _ _ (by omega), length_insertAt _ _ _ (by omega)]; omega)]
   simp only
   rw [eraseAt_insertAt _ _ _ (by omega), glob_divs_mods cs js (by omega)]
+
+/-- `stack` since f3856f5: inputs of equal shape and arbitrary chunkings — the others are rechunked to the
+first's chunking (values unchanged by `rechunkN_correct`), then the block op is correct. -/
+theorem stackUnified_correct {α : Type} (arrs : Nat → List Nat → α) (shape : List Nat) (css : Nat → List Nat)
+    (axis k : Nat) (js : List Nat) (hpos : AllPos (css 0)) (hlen : ∀ k, (css k).length = shape.length)
+    (hjs : InBox js shape) (ha : axis ≤ js.length) :
+    stackUnified arrs shape css axis (insertAt axis k js) = some (arrs k js) := by
+  unfold stackUnified
+  rw [stack_correct_partial _ shape (css 0) axis k js hpos (hlen 0).symm hjs ha]
+  simp only [Option.bind_some, id]
+  by_cases h : css k = css 0
+  · simp [h]
+  · simp only [h, if_false]
+    exact rechunkN_correct (arrs k) shape (css k) (css 0) js (hlen 0).symm (hlen k).symm hpos hjs
 
 /-! ### reshape_chunks -/
 
